@@ -64,11 +64,18 @@ func init() {
 			// the local holding the old batch
 			var old types.Object
 			inspect(f.Decl.Body, func(nd ast.Node) bool {
-				if as, ok := nd.(*ast.AssignStmt); ok && as.Tok == token.DEFINE && len(as.Lhs) == 1 && len(as.Rhs) == 1 && prog.SelField(info, as.Rhs[0]) == batch {
-					old = prog.IdentObj(info, as.Lhs[0])
+				if as, ok := nd.(*ast.AssignStmt); ok && len(as.Lhs) == 1 && len(as.Rhs) == 1 && prog.SelField(info, as.Rhs[0]) == batch {
+					if v, isVar := prog.IdentObj(info, as.Lhs[0]).(*types.Var); isVar && !v.IsField() && v.Parent() != v.Pkg().Scope() {
+						old = v
+					}
 				}
 				return true
 			})
+			// a named result: a bare return hands back what was last assigned to it on the path
+			var resObj types.Object
+			if rl := f.Decl.Type.Results; rl != nil && len(rl.List) == 1 && len(rl.List[0].Names) == 1 {
+				resObj = info.Defs[rl.List[0].Names[0]]
+			}
 			spec := &pathsim.Spec{AtomDeps: map[int][]types.Object{0: {batch}, 2: {tok}}}
 			spec.Atom = func(c *pathsim.Ctx, e ast.Expr) (int, bool, bool) {
 				for i, a := range atoms {
@@ -84,14 +91,24 @@ func init() {
 				bStop  = 4
 				bOld   = 8
 				bGuard = 16 // the flush guard held when the first of the paired updates ran
+				bRes   = 32 // the named result was assigned on this path
 			)
 			nSwap := 0
 			spec.Step = func(c *pathsim.Ctx, s pathsim.State, ev *pathsim.Event) []pathsim.State {
 				switch ev.Kind {
 				case pathsim.EvAssign:
 					if len(ev.Lhs) == 1 && len(ev.Rhs) == 1 {
-						if old != nil && prog.IdentObj(c.Info, ev.Lhs[0]) == old && s.A&bSwap == 0 {
-							s.A |= bOld
+						if lhs := prog.IdentObj(c.Info, ev.Lhs[0]); lhs != nil && (lhs == old || lhs == resObj) {
+							if lhs == resObj {
+								s.A |= bRes
+							}
+							if lhs == old {
+								if s.A&bSwap == 0 && prog.SelField(c.Info, ev.Rhs[0]) == batch {
+									s.A |= bOld
+								} else {
+									s.A &^= bOld // overwritten: no longer the swapped-out slice
+								}
+							}
 							return []pathsim.State{s}
 						}
 						if prog.SelField(c.Info, ev.Lhs[0]) == batch {
@@ -139,12 +156,28 @@ func init() {
 						return []pathsim.State{s}
 					}
 				case pathsim.EvReturn:
-					if len(ev.Results) != 1 {
+					var res ast.Expr
+					retNil, retOld := false, false
+					switch {
+					case len(ev.Results) == 1:
+						res = ev.Results[0]
+						if tv, ok := c.Info.Types[res]; ok && tv.IsNil() {
+							retNil = true
+						}
+						if call, ok := ast.Unparen(res).(*ast.CallExpr); ok {
+							if e := soleReturnExpr(c.Info, call); e != nil {
+								res = e // `return b.takeBatchLocked()`: what the helper returns
+							}
+						}
+						if o := prog.IdentObj(c.Info, res); o != nil {
+							retOld = o == old && s.A&bOld != 0
+							retNil = retNil || (o == resObj && s.A&bRes == 0)
+						}
+					case len(ev.Results) == 0 && resObj != nil:
+						retNil = s.A&bRes == 0
+						retOld = resObj == old && s.A&bOld != 0
+					default:
 						return nil
-					}
-					retNil := false
-					if tv, ok := c.Info.Types[ev.Results[0]]; ok && tv.IsNil() {
-						retNil = true
 					}
 					if s.A&bSwap != 0 {
 						if s.A&bInc == 0 {
@@ -153,13 +186,7 @@ func init() {
 						if s.A&bStop == 0 {
 							c.Violate(ev.Pos, "[swap-without-timer-stop] a batch was flushed but its timer was not stopped")
 						}
-						res := ev.Results[0]
-						if call, ok := ast.Unparen(res).(*ast.CallExpr); ok {
-							if e := soleReturnExpr(c.Info, call); e != nil {
-								res = e // `return b.takeBatchLocked()`: what the helper returns
-							}
-						}
-						if retNil || old == nil || prog.IdentObj(c.Info, res) != old {
+						if retNil || old == nil || !retOld {
 							c.Violate(ev.Pos, "[returns-other] Flush swapped the batch out but does not return the swapped-out slice: its items are lost")
 						}
 					} else {
